@@ -212,7 +212,7 @@ class Driver:
             arr = {'conn': str(key), 'order': len(drv.arrivals), 'at': len(drv.events), 'msg': None}
             drv.arrivals.append(arr)
             drv.arrival_of[id(message)] = arr
-            drv.delay_of[id(message)] = (sm or {}).get('delay', 0)
+            drv.delay_of[id(message)] = sm or {}
             drv.keep.append(message)
             try:
                 await orig(message, connection)
@@ -221,6 +221,9 @@ class Driver:
                     # handled here, completing nobody
                     drv.on_iterate()
             except Exception:
+                if arr['msg'] is None:
+                    drv.on_iterate()        # the handlers / listeners raised before the completion step: nobody was completed
+                    drv.pre_loop_raise.append(arr['msg'])
                 # attribute the raise to the Message event of this message (it is the last Message logged by this task)
                 for k in range(len(drv.events) - 1, -1, -1):
                     if drv.events[k][0] == 'Message' and drv.events[k][2] is message:
@@ -229,6 +232,7 @@ class Driver:
                 raise
         self.net.on_message_received = on_message_received
         self.arrivals = []
+        self.pre_loop_raise = []
         self.arrival_of = {}
         self.delay_of = {}
 
@@ -236,8 +240,14 @@ class Driver:
         from aioslsk.events import MessageReceivedEvent
 
         async def slow_listener(event):
-            for _ in range(drv.delay_of.get(id(event.message), 0)):
+            plan = drv.delay_of.get(id(event.message)) or {}
+            for _ in range(plan.get('delay', 0) + drv.extra_delay):
                 await asyncio.sleep(0)
+            if plan.get('reenter'):            # a listener that issues a new request while the message is being handled
+                drv.register(plan['reenter'])
+            if plan.get('raise'):              # a listener that fails: EventBus.emit logs it and goes on
+                raise RuntimeError('listener failed')
+        self.extra_delay = 0
         self._slow_listener = slow_listener          # the event bus keeps weak references only
         w.client.events.register(MessageReceivedEvent, self._slow_listener)
 
@@ -480,7 +490,8 @@ class Driver:
             self.logger.setLevel(lvl)
             logging.disable(dis)
             try:
-                self.w.stop()
+                self.w.loop.run_coro(self.w.client.stop(), timeout_virtual=30.0, max_iters=20000)     # bounded
+                self.w.close()
             except Exception:
                 self.w.close()
 
@@ -510,6 +521,14 @@ def run_script(script):
                 d.cancel(op[1])
             elif k == 'release':
                 d.release(op[1])
+            elif k == 'late_listener':          # a second suspending listener registered while requests are pending
+                from aioslsk.events import MessageReceivedEvent
+
+                async def late(event, n=op[1]):
+                    for _ in range(n):
+                        await asyncio.sleep(0)
+                d._late = getattr(d, '_late', []) + [late]
+                d.w.client.events.register(MessageReceivedEvent, late, priority=op[2] if len(op) > 2 else 100)
             elif k == 'go':
                 d.go(op[1], op[2])
             else:
@@ -531,7 +550,7 @@ def run_script(script):
                 'list_len': len(d.net._expected_response_futures), 'errlog': d.errlog,
                 'unhandled': [str(c.get('message')) + ':' + repr(c.get('exception')) for c in d.loop.unhandled],
                 'unmatched_feeds': {str(k): len(v) for k, v in d.pending_msgs.items() if v},
-                'arrivals': [dict(a) for a in d.arrivals],
+                'arrivals': [dict(a) for a in d.arrivals], 'pre_loop_raise': list(d.pre_loop_raise),
                 'execs': [{'wn': n, 'index': hw['index'], 'spec': hw['spec'], 'issued_at': hw.get('issued_at'), 'sent_at': hw.get('sent_at'),
                            'send_failed': bool(hw.get('send_failed')), 'late_registration': bool(hw.get('late_registration')),
                            'task_done': hw['task'].done(),
@@ -584,7 +603,11 @@ def monitor(tr):
                 if state[i] != 'P':
                     v.append(('completed-after-done', f'waiter {i} completed by message {mid} after it was already done', {'waiter': i}))
             missed = [i for i in should if W[i]['fut'] != (1, mid)]
-            if missed:
+            if tr['raised'][k] and mid in tr.get('pre_loop_raise', []):
+                if missed:
+                    v.append(('completion-step-skipped-by-exception', f'message {mid}: a handler / listener exception ended on_message_received before '
+                              f'the completion step; pending matching waiter(s) {missed} not completed', {'message': mid, 'missed': missed}))
+            elif missed:
                 if tr['raised'][k]:
                     v.append((F02A, f'message {mid}: InvalidStateError in the completion loop; pending matching waiter(s) {missed} not completed',
                               {'message': mid, 'missed': missed}))
@@ -868,6 +891,10 @@ def gen_script(rng):
                     batch.append(gen_message_for(rng, rng.choice(specs[:max(registered, 1)])))
             if rng.random() < 0.25:          # listeners that suspend, longer for earlier messages
                 batch = [dict(b_, delay=rng.choice([0, 1, 2, 3, 4])) for b_ in batch]
+            if rng.random() < 0.1:           # ... or fail
+                batch = [dict(b_, **{'raise': True}) if rng.random() < 0.5 else b_ for b_ in batch]
+            if rng.random() < 0.08 and registered:
+                batch[0] = dict(batch[0], reenter=dict(specs[0], kind='raw_s' if specs[0]['conn'] == 'S' else 'reg'))
             ops.append(['feed_soon' if rng.random() < 0.3 else 'feed', batch])
         elif r < 0.78:
             ops.append(['step', rng.choice([1, 1, 1, 2, 3])])
@@ -932,6 +959,13 @@ def directed_scripts():
             out.append({'ops': pre + [['feed', [dict(m, delay=d1), dict(m, delay=d2)]], ['step', 8]]})
             out.append({'ops': pre + [['reg', dict(base, kind='raw_s', fields=[[0, ['eq', 1]], [1, ['eq', 2]]])],
                                       ['feed', [dict(m, delay=d1), dict(m, delay=d2, vals={'0': 1, '1': 3, '2': 0})]], ['step', 8]]})
+    # helpers: listeners that fail, that issue a request themselves, that are registered late (EventBus.emit / register)
+    for k1 in ('raw_s', 'wait_s', 'exec'):
+        a = dict(base, kind=k1)
+        pre = [['reg', a], ['step', 1], ['go', 0, True], ['step', 3]]
+        out.append({'ops': pre + [['feed', [dict(m, **{'raise': True}), m]], ['step', 6]]})
+        out.append({'ops': pre + [['feed', [dict(m, delay=2, reenter=dict(base, kind='raw_s')), m]], ['step', 8]]})
+        out.append({'ops': pre + [['late_listener', 2, 50], ['feed', [m]], ['step', 2], ['late_listener', 1, 150], ['feed', [m, m]], ['step', 8]]})
     # callable matchers
     wc = dict(base, kind='wait_s', fields=[[1, ['ge', 2]], [0, ['eq', 1]]])
     m_other = {'conn': 'S', 'cls': 0, 'vals': {'0': 2, '1': 3, '2': 0}}
@@ -1008,6 +1042,8 @@ def run(run: Run):
     for s in directed_scripts():
         do(s, 'directed')
     n = 260 if run.tier == "quick" else 2000
+    if not proved:
+        n *= 3          # a broken tie (translator refused, fingerprint or proof broke): search longer for a concrete failing input
     for _ in range(n):
         do(gen_script(run.rng), 'random')
 
